@@ -14,11 +14,20 @@ META = dict(
                  '(Props/C18, C03, C16, C11); EC/ECDSA check layers: totality searched on the implementation'])
 
 
-def raises(f, *a):
+def raises(f, *a, limit=900):
+  import signal
+
+  def _alarm(*_):
+    raise TimeoutError('no return within %d s' % limit)
+  old_h = signal.signal(signal.SIGALRM, _alarm)
+  signal.setitimer(signal.ITIMER_REAL, limit)
   try:
     r = f(*a)
   except Exception as e:  # noqa
     return '%s: %s' % (type(e).__name__, str(e)[:120])
+  finally:
+    signal.setitimer(signal.ITIMER_REAL, 0)
+    signal.signal(signal.SIGALRM, old_h)
   if not isinstance(r, bool):
     return 'returned %r instead of a bool' % (r,)
   return None
@@ -33,6 +42,11 @@ def rsa_batches(rng, tier):
   out.append(('single-degenerate', None))
   for n in deg:
     out.append(('one', [n]))
+  # D21: moduli of odd size whose 64 leading bits are a key of the shipped keypair table
+  from paranoid_crypto.lib.data import default_storage as _ds
+  tk = sorted(dict(_ds.DefaultStorage().GetKeypairData().table))
+  for sh in (1, 65, 449):
+    out.append(('keypair-prefix-odd-size', [(rng.choice(tk) << sh) | rng.getrandbits(sh) | 1]))
   out.append(('duplicates', [deg[0], deg[0]]))
   out.append(('all-degenerate', deg[:24]))
   p, q = gen_rsa.semiprime(rng, 256)
@@ -53,9 +67,9 @@ def correspondence(rep, rng, tier):
     bh = Batch('chk.hlbe')
     bs = Batch('chk.sud')
     for tag, ns in rsa_batches(rng, tier):
-      for e in (65537, 3, 1, 2**40 + 1):
+      for e in ((65537,) if tag.startswith('keypair-prefix') else (65537, 3, 1, 2**40 + 1)):
         keys = [art.rsa_key(n, e) for n in ns]
-        err = raises(paranoid.CheckAllRSA, keys)
+        err = raises(paranoid.CheckAllRSA, keys, limit=60 if tag.startswith('keypair-prefix') else 900)
         tried['rsa'] += 1
         if err:
           rep.violations.append(dict(op='CheckAllRSA', line='CheckAllRSA %s e=%d' % (L(ns), e),
